@@ -15,7 +15,8 @@ RULE = ('a case is one call of the real apply_category_filters on a random docum
         'the dictionary and at least one is not.')
 ASSUMPTIONS = ['expected rows are computed independently with numpy.where on a snapshot taken before the call']
 REQUIRED_MONITORS = {'filter:calls': 500, 'filter:tokens-in-dict': 500, 'filter:tokens-not-in-dict': 500,
-                     'filter:missing-category-rejected': 20, 'shipped:dict-categories-in-inventory': 1}
+                     'filter:missing-category-rejected': 20, 'shipped:dict-categories-in-inventory': 1,
+                     'filter:lists-with-nb-twins': 50}
 
 
 def shards(tier, seed):
